@@ -571,13 +571,19 @@ impl<'r, 'c, 's, W: Write> DatumSerializer<'r, 'c, 's, W> {
 						)
 					})?;
 				let bytes = n.to_be_bytes();
+				// Number of leading bytes that are pure sign extension, that is, that can be
+				// dropped without altering the two's complement value
+				let sign_byte: u8 = if n < 0 { 0xFF } else { 0x00 };
+				let mut redundant = 0;
+				while redundant < bytes.len() - 1
+					&& bytes[redundant] == sign_byte
+					&& bytes[redundant + 1] & 0x80 == sign_byte & 0x80
+				{
+					redundant += 1;
+				}
 				let buf = match decimal.repr {
 					DecimalRepr::Bytes => {
-						let mut start = 0;
-						while start < bytes.len() - 1 && bytes[start] == 0 {
-							start += 1;
-						}
-						let buf = &bytes[start..];
+						let buf = &bytes[redundant..];
 						self.state
 							.writer
 							.write_varint::<i64>(buf.len().try_into().map_err(|_| {
@@ -592,6 +598,11 @@ impl<'r, 'c, 's, W: Write> DatumSerializer<'r, 'c, 's, W> {
 						let start = bytes.len().checked_sub(fixed.size).ok_or_else(|| {
 							SerError::custom("Decimals of size larger than 16 are not supported")
 						})?;
+						if start > redundant && !(fixed.size == 0 && n == 0) {
+							return Err(SerError::new(
+								"Integer to be encoded as decimal does not fit in `fixed` field size",
+							));
+						}
 						&bytes[start..]
 					}
 				};
